@@ -8,6 +8,7 @@ import Dmn.Lemmas.RefParserNeededDeepE
 import Dmn.Lemmas.RefParserLayout
 import Dmn.Lemmas.StringLit
 import Dmn.Lemmas.RefParserWide
+import Dmn.Lemmas.LalrSpell
 
 /-!
 # C06 — the parser builds the tree dictated by precedence and associativity
@@ -633,5 +634,58 @@ theorem unicode_byte_model_is_lexer_decision (v low : Nat) :
       rw [packSur_eq]
       exact decode_four _ (by omega) (by omega)
     · simp [hl]
+
+/-! ## The committed LALR tables against the grammar of feel.y
+
+`lalr.rs` is bison's output, committed; bison is not installed, so "the tables implement feel.y" was
+trusted and only exercised.  One half of it is now decided on every run, over the tables as
+regenerated from lalr.rs (`translate/lalr.py`), the rules of feel.y in bison's numbering
+(`translate/parser_scope.py`, `Dmn.Gen.ParserScope.grammar`) and two witnesses that are re-checked,
+never trusted (`PREDS`: predecessors of every state, complete by C05's `lalr_stack_ok`; `ACC`: the
+accessing symbol of every state, `translate/lalr_acc.py`):
+
+SOUNDNESS — every shift the tables allow on a token enters a state accessed by that token; every
+reduction they allow in a state (explicit entry or default action) is by a rule `A → X₁ … Xₙ` of
+feel.y whose left-hand side and length are `YY_R1` / `YY_R2`, pops — along every path of the automaton
+that ends in the state — states accessed by `Xₙ, …, X₁`, and enters from every uncovered state a state
+accessed by `A`.  With the stack invariant of C05 (the state stack is a path of the automaton) the
+symbols accessing the stacked states are the sentential prefix read so far and the reductions of an
+accepting run, read backwards, are a rightmost derivation of the token sequence in feel.y's grammar:
+the driver accepts only sentences of the grammar and reduces them by its rules.
+
+NOT decided (stays with the correspondence above): completeness — that every sentence is accepted
+and every conflict resolved as the `%left / %right / %nonassoc / %prec` declarations say; and the
+lift of the table statement to runs of `Dmn.Lalr.parse` as a theorem (the argument above is prose). -/
+
+open Dmn.Lalr Dmn.Gen.Lalr Dmn.Gen.LalrAcc in
+/-- `lalr_table_entries_spell_rules`: every action entry of `YY_TABLE` / `YY_CHECK`, read in every
+state whose row reaches it — a shift enters a state accessed by the shifted token, a reduction spells
+a rule of feel.y (`spellEntryOk`, Dmn/Model/LalrSpell.lean). -/
+theorem lalr_table_entries_spell_rules :
+    allIdx2 (spellEntryOk gen PREDS ACC feelGrammar) 0 gen.table gen.check = true :=
+  Dmn.Lalr.spell_table_ok
+
+open Dmn.Lalr Dmn.Gen.Lalr Dmn.Gen.LalrAcc in
+/-- `lalr_default_reductions_spell_rules`: the default action of every state other than `YY_FINAL`
+spells a rule of feel.y. -/
+theorem lalr_default_reductions_spell_rules :
+    allIdx (fun s d => (s : Int) == gen.final || d == 0 || redSpells gen PREDS ACC feelGrammar s d) 0 gen.defAct
+      = true :=
+  Dmn.Lalr.spell_default_ok
+
+open Dmn.Lalr Dmn.Gen.Lalr Dmn.Gen.LalrAcc in
+/-- `lalr_tables_sound_for_grammar`: the two halves together are `spellOk`. -/
+theorem lalr_tables_sound_for_grammar : spellOk gen PREDS ACC feelGrammar = true := by
+  unfold spellOk
+  rw [lalr_table_entries_spell_rules, lalr_default_reductions_spell_rules]
+  rfl
+
+-- non-vacuity: one accessing symbol per state, all but the initial state reached; the grammar has as many rules as
+-- YY_R1; state 30 (accessed by `boxed_expression`) reduces by rule 9 `expression: boxed_expression` and NOT by its
+-- sibling rule 10 `expression: textual_expression` of the same left-hand side and length
+open Dmn.Lalr Dmn.Gen.Lalr Dmn.Gen.LalrAcc in
+example : ACC.length = YY_PACT.length ∧ (ACC.filter (· < 0)).length = 1 ∧ feelGrammar.length = YY_R1.length ∧
+    redSpells gen PREDS ACC feelGrammar 30 9 = true ∧ redSpells gen PREDS ACC feelGrammar 30 10 = false := by
+  decide +kernel
 
 end Dmn.C06
